@@ -14,6 +14,8 @@ from .. import model, explore, refterm as rt
 from ..hist import build
 
 ID = 'C01'
+ASSUMPTIONS = ['base texts contain no ESC: rendering is in-band, a text ending in an unterminated control sequence swallows '
+               'the sequence the rendering appends (DESIGN section 8)', 'the reference terminal mc/refterm.py is the reading of SGR the properties spell out']
 
 # group -> (value 1, value 2 or None, clear code)
 GV = {
